@@ -134,6 +134,9 @@ Proof.
   - now apply op_ok_vacuous.
 Qed.
 
+Lemma Inv_commit_ka : forall s st' ops ka, Inv (with_ka (commit s st' ops) ka).
+Proof. intros s st' ops ka i. exact (Inv_commit s st' ops i). Qed.
+
 Lemma Inv0 : forall t0, Inv (net0 t0).
 Proof. intros t0 i. apply op_ok_vacuous. reflexivity. Qed.
 
@@ -181,7 +184,7 @@ Proof.
     + apply String.eqb_eq in E; subst k. rewrite upd_same. intros _ _. simpl. exists []. reflexivity.
     + apply String.eqb_neq in E. rewrite upd_other by exact E. apply I.
   - (* Keepalive *)
-    destruct (is_up (n_ops s i)); [|discriminate]. injection H as <-. apply Inv_commit.
+    destruct (_ && _); [|discriminate]. injection H as <-. apply Inv_commit_ka.
   - (* Observe *)
     destruct (negb (is_alive (n_ops s i) && op_listed (n_ops s i))) eqn:EA; [discriminate|].
     destruct (op_inbox (n_ops s i)) as [|[v snap] rest] eqn:EI; [discriminate|].
@@ -213,7 +216,7 @@ Proof.
     destruct (op_wake (n_ops s i)) as [w|]; [|discriminate].
     destruct (w <=? n_now s); [|discriminate]. injection H as <-. apply Inv_commit.
   - (* Exit *)
-    destruct (is_up (n_ops s i)); [|discriminate]. injection H as <-. apply Inv_commit.
+    destruct (is_up (n_ops s i)); [|discriminate]. injection H as <-. apply Inv_commit_ka.
   - (* Gone *)
     destruct (op_phase (n_ops s i)) eqn:EP; try discriminate. injection H as <-.
     intros k; simpl. destruct (String.eqb k i) eqn:E.
@@ -337,7 +340,7 @@ Qed.
 (* an exiting operator without an armed sleep and without undelivered events cannot write any more *)
 Theorem exiting_idle_is_silent : forall s i, op_phase (n_ops s i) = Exiting ->
   op_wake (n_ops s i) = None -> op_inbox (n_ops s i) = [] ->
-  step s (LWake i) = None /\ step s (LKeepalive i) = None /\ step s (LExit i) = None /\
+  step s (LWake i) = None /\ (forall j, step s (LKeepalive i j) = None) /\ step s (LExit i) = None /\
   forall v c t, step s (LObserve i v c t) = None.
 Proof.
   intros s i P W IB. simpl. unfold is_up, is_alive. rewrite P, W, IB. simpl.
@@ -414,10 +417,10 @@ Definition live_rec (now : Z) (st : astatus) (i : string) : bool :=
    re-registers; op-a then processes its OWN touch event (version 4, older than the re-registration)
    and cleans op-b: a live record is removed. *)
 Definition tr_stale_clean : list label :=
-  [ LStart "a" 0 20 false; LKeepalive "a"; LList "a"; LObserve "a" 1 [] false;
-    LTick 1000; LStart "b" 20 12 false; LKeepalive "b"; LList "b"; LObserve "b" 2 [] false;
+  [ LStart "a" 0 20 false; LKeepalive "a" 7; LList "a"; LObserve "a" 1 [] false;
+    LTick 1000; LStart "b" 20 12 false; LKeepalive "b" 7; LList "b"; LObserve "b" 2 [] false;
     LObserve "a" 2 [] true; LTick 2000; LKill "b";
-    LTick 13000; LWake "a"; LStart "b" 20 12 false; LKeepalive "b"; LTick 13375 ].
+    LTick 13000; LWake "a"; LKeepalive "a" 7; LStart "b" 20 12 false; LKeepalive "b" 7; LTick 13375 ].
 
 Definition phase_eqb (a b : phase) : bool :=
   match a, b with Down, Down | Up, Up | Exiting, Exiting => true | _, _ => false end.
@@ -462,9 +465,10 @@ Qed.
 (* F1302: the paused op-c exits gracefully at 11 s (record removed), its draining worker wakes at 12 s
    (deadline of the killed op-b) and re-registers op-c; the process is gone, the record lives on. *)
 Definition tr_touch_after_exit : list label :=
-  [ LStart "b" 100 12 false; LKeepalive "b"; LList "b"; LObserve "b" 1 [] false;
-    LTick 1000; LStart "c" 10 12 false; LKeepalive "c"; LList "c"; LObserve "b" 2 [] false;
-    LObserve "c" 2 [] true; LTick 2000; LKill "b"; LTick 11000; LExit "c" ].
+  [ LStart "b" 100 12 false; LKeepalive "b" 5; LList "b"; LObserve "b" 1 [] false;
+    LTick 1000; LStart "c" 10 12 false; LKeepalive "c" 5; LList "c"; LObserve "b" 2 [] false;
+    LObserve "c" 2 [] true; LTick 2000; LKill "b"; LTick 8000; LKeepalive "c" 5; LObserve "c" 3 [] true;
+    LTick 11000; LExit "c" ].
 
 Definition touch_after_exit_check : bool :=
   match run (net0 0) tr_touch_after_exit with
@@ -493,8 +497,8 @@ Qed.
 
 (* non-vacuity of the Top section: two operators that see each other, both synced *)
 Definition tr_two_ops : list label :=
-  [ LStart "a" 0 60 false; LKeepalive "a"; LList "a"; LObserve "a" 1 [] false;
-    LTick 1000; LStart "b" 100 60 false; LKeepalive "b"; LList "b"; LObserve "b" 2 [] false;
+  [ LStart "a" 0 60 false; LKeepalive "a" 5; LList "a"; LObserve "a" 1 [] false;
+    LTick 1000; LStart "b" 100 60 false; LKeepalive "b" 5; LList "b"; LObserve "b" 2 [] false;
     LObserve "a" 2 [] true; LTick 5000 ].
 
 (* the hypotheses of the Top section, decidable for a concrete state *)
